@@ -51,5 +51,6 @@ fn main() {
         "C03" => c03,
         "C04" => c04,
         "C05" => c05,
+        "C06" => c06,
     );
 }
